@@ -338,6 +338,8 @@ func runC15(r *Report) {
 	ruleWriterErrflow(r)
 	ruleFlushErrflow(r)
 	ruleCreateTruncates(r)
+	// (a write that was cut is remembered: the table must not be finished behind it)
+	ruleStickyWriteError(r)
 }
 
 // R-truncate-on-close (shared with C04)
